@@ -3,7 +3,7 @@ import KitModel.BroadcasterAccept
 Driver for property C11: `kitdrv C11` — state-set simulation of the broadcaster LTS.
 
 Input lines (one answer line each):
-* `reset variant=fixed|orig [reduce=0] [hooked=1]`  start a new trace from the initial state
+* `reset variant=fixed|orig [reduce=0] [eager=0] [hooked=1]`  start a new trace from the initial state
   (`hooked=1`: every Broadcast lock acquisition is reported by `ev k=bacq v=<n>`)
 * `ev k=bcall v=<n>` | `ev k=bret t=<ticket>` | `ev k=scall` | `ev k=sret h=<tag>` |
   `ev k=cancel h=<tag>` | `ev k=recv h=<tag> v=<n>` | `ev k=ccall` | `ev k=cret`
@@ -49,6 +49,7 @@ structure DState where
   variant : Variant
   reduce : Bool
   hooked : Bool
+  eager : Bool
   cur : List State
   dead : Bool
 
@@ -61,14 +62,15 @@ def stepLine (d : DState) (line : String) : DState × String :=
     let v := if l.get? "variant" == some "orig" then Variant.orig else Variant.fixed
     let reduce := l.get? "reduce" != some "0"
     let hooked := l.get? "hooked" == some "1"
-    let a := startSet v reduce hooked cap
-    ({ variant := v, reduce, hooked, cur := a.list, dead := false }, s!"ok n={a.size}")
+    let eager := l.get? "eager" != some "0"
+    let a := startSet v reduce hooked eager cap
+    ({ variant := v, reduce, hooked, eager, cur := a.list, dead := false }, s!"ok n={a.size}")
   | "ev" =>
     match parseObs l with
     | none => (d, "error bad-event")
     | some o =>
       if d.dead then (d, "dead") else
-      let a := acceptStep d.variant d.reduce d.hooked cap d.cur o
+      let a := acceptStep d.variant d.reduce d.hooked d.eager cap d.cur o
       if a.size > cap then
         ({ d with cur := a.list, dead := true }, s!"overflow n={a.size}")
       else if a.size == 0 then
@@ -83,6 +85,6 @@ def stepLine (d : DState) (line : String) : DState × String :=
   | _ => (d, "error unknown-op")
 
 def main (_args : List String) : IO UInt32 := do
-  Kit.lineLoop stepLine { variant := .fixed, reduce := true, hooked := false, cur := (startSet .fixed true false cap).list, dead := false }
+  Kit.lineLoop stepLine { variant := .fixed, reduce := true, hooked := false, eager := true, cur := (startSet .fixed true false true cap).list, dead := false }
   return 0
 end Driver.C11
